@@ -3,7 +3,7 @@ import msuite
 import scopesuite
 
 PID = 'C06'
-TAGS = ['status', 'cancel', 'taskret', 'tfin', 'caught', 'spawn']
+TAGS = ['status', 'cancel', 'taskret', 'tfin', 'caught', 'spawn', 'cleanup']
 RULE = ('(a) scope trees: nested (until-)scopes (depth <= 3, <= 3 children each, volatile or delayed), bodies and children that '
         'sleep/raise (regular and privileged types)/return, cancels from inside and from a separate activity after t time units '
         'and k postponements, deadlines and flags on a coarse time grid, everything wrapped in handlers that log what they catch; '
@@ -14,7 +14,7 @@ def nontrivial(impl):
     return any(':cancel:' in e or ':status:' in e for e in impl['events'])
 
 
-SOURCES = [scopesuite.scope_tree, scopesuite.valid_scenario]
+SOURCES = [scopesuite.scope_tree, scopesuite.valid_scenario, scopesuite.cancel_cleanup]
 
 
 def run(tier, seed, drv):
